@@ -54,6 +54,38 @@ def build(form, n, outcomes, backoff, retry=True):
                                   "expect_ok": (first is not None) if retry else outcomes[0]})
 
 
+def build_seq(rng):
+    """2..3 retry records run one after the other on ONE runner (Runner::run per record, going on after a failure): the attempts of
+    a record must not depend on how an earlier record ended"""
+    k = rng.randint(2, 3)
+    text, answers, sysa, per = "", [], [], []
+    for j in range(k):
+        form = rng.choice(FORMS)
+        n = rng.randint(1, 4)
+        if j == 0 or rng.random() < 0.5:
+            outs = tuple([False] * n)                      # exhausts its budget
+        else:
+            first = rng.randrange(n)
+            outs = tuple([False] * first + [True] + [rng.random() < 0.5 for _ in range(n - first - 1)])
+        c = build(form, n, outs, rng.choice(BACKOFFS))
+        text += c["text"] + "\n"
+        answers += c["answers"]
+        sysa += c["sys"]
+        per.append({"form": form, "n": n, "outcomes": list(outs), "expect_runs": c["meta"]["expect_runs"], "expect_ok": c["meta"]["expect_ok"]})
+        # answers are indexed by call number: drop the ones this record will not consume
+        used = c["meta"]["expect_runs"]
+        if form == "system":
+            if len(c["sys"]) > used:
+                del sysa[len(sysa) - (len(c["sys"]) - used):]
+        elif len(c["answers"]) > used:
+            del answers[len(answers) - (len(c["answers"]) - used):]
+    return runfam.impl_case(text, answers=answers, sys=sysa, strict_cols=any(p["form"] == "query-strict" for p in per),
+                            default_answer=["err", "exhausted"], sys_default=["exit", 99, "exhausted", ""],
+                            meta={"seq": per, "form": "seq", "n": sum(p["n"] for p in per), "outcomes": [o for p in per for o in p["outcomes"]],
+                                  "backoff": "mixed", "retry": True, "expect_runs": sum(p["expect_runs"] for p in per),
+                                  "expect_ok": per[-1]["expect_ok"]})
+
+
 def corpus():
     return []
 
@@ -67,6 +99,8 @@ def generate(rng, tier):
                     cases.append(build(form, n, outs, b))
         for ok in (False, True):
             cases.append(build(form, 1, (ok,), "0s", retry=False))
+    for _ in range(1500 if tier == "quick" else 20000):
+        cases.append(build_seq(rng))
     if tier == "thorough":
         for _ in range(20000):
             n = rng.randint(7, 10)
@@ -82,6 +116,8 @@ def execute(cases, tier):
 def project(case, obs):
     if "results" not in obs:
         return obs
+    if case["meta"].get("seq"):
+        return {"verdict": [r[:2] for r in obs["results"]], "events": obs["events"]}
     return {"verdict": obs["results"][-1][:2], "events": obs["events"]}
 
 
@@ -96,6 +132,13 @@ def direct_check(case, obs):
     m = case["meta"]
     evs = obs["events"]
     runs = [e for e in evs if e[0] in ("sql", "cmd")]
+    if m.get("seq"):
+        oks = [r[0] == "ok" for r in obs["results"] if r[0] in ("ok", "err")]
+        want = [p["expect_ok"] for p in m["seq"]]
+        if len(runs) != m["expect_runs"] or oks[-len(want):] != want:
+            return "contradicts L1: records %r executed %d times in total with verdicts %r; expected %d executions (min(first pass, N) each) and verdicts %r" % (
+                [(p["form"], p["n"], p["outcomes"]) for p in m["seq"]], len(runs), oks, m["expect_runs"], want)
+        return None
     if len(runs) != m["expect_runs"]:
         return "contradicts L1: record executed %d times, expected min(first pass, N) = %d" % (len(runs), m["expect_runs"])
     ok = obs["results"][-1][0] == "ok"
